@@ -51,3 +51,42 @@ Proof.
 Qed.
 
 End StartKey.
+
+(* C02: the Count of a Query / Scan answer is the number of items it returns *)
+Section Count.
+Variable lang_match : str -> item -> item -> fmap str -> outcome bool.
+Variable flavour : sdk.
+
+Lemma run_search_count c t q its n lek :
+  o_pay (snd (run_search lang_match flavour c t q)) = PItems its n lek -> n = List.length its.
+Proof.
+  unfold run_search. cbv beta zeta.
+  destruct (q_index q) as [ix|].
+  - destruct (negb (mem ix (t_indexes t)) && negb match ix with [] => true | _ => false end); [cbn; discriminate|].
+    destruct (negb (valid_start_key _ _ _)); [cbn; discriminate|].
+    destruct (check_expressions _ _ _ _) as [u| | |]; try (cbn; discriminate).
+    destruct (search_data _ _ _ _) as [[[items lek0] f]| | |]; try (cbn; discriminate).
+    cbn. intros E; inversion E; subst. now rewrite map_length.
+  - destruct (negb (valid_start_key _ _ _)); [cbn; discriminate|].
+    destruct (check_expressions _ _ _ _) as [u| | |]; try (cbn; discriminate).
+    destruct (search_data _ _ _ _) as [[[items lek0] f]| | |]; try (cbn; discriminate).
+    cbn. intros E; inversion E; subst. now rewrite map_length.
+Qed.
+
+Theorem query_count_is_length c tn ix kc fl names vals lim esk fw proj its n lek :
+  o_pay (snd (query_op lang_match flavour c tn ix kc fl names vals lim esk fw proj)) = PItems its n lek -> n = List.length its.
+Proof.
+  unfold query_op. destruct (c_failure c); [cbn; discriminate|].
+  destruct (validate_expr_attrs _ _ _); [|cbn; discriminate].
+  destruct (lookup tn (c_tables c)); [|cbn; discriminate]. apply run_search_count.
+Qed.
+
+Theorem scan_count_is_length c tn ix fl names vals lim esk proj its n lek :
+  o_pay (snd (scan_op lang_match flavour c tn ix fl names vals lim esk proj)) = PItems its n lek -> n = List.length its.
+Proof.
+  unfold scan_op. destruct (c_failure c); [cbn; discriminate|].
+  destruct (validate_expr_attrs _ _ _); [|cbn; discriminate].
+  destruct (lookup tn (c_tables c)); [|cbn; discriminate]. apply run_search_count.
+Qed.
+
+End Count.
